@@ -300,8 +300,8 @@ class Convention(abc.ABC, Generic[GridKind, Index]):
         # The bounds of a time coordinate are decoded by xarray just like the coordinate itself,
         # but they are not a time coordinate.
         bounds_names = {
-            variable.attrs['bounds'] for variable in self.dataset.variables.values()
-            if 'bounds' in variable.attrs}
+            utils.get_bounds_name(variable) for variable in self.dataset.variables.values()
+            if utils.get_bounds_name(variable) is not None}
         for name in self.dataset.variables.keys():
             if name in bounds_names:
                 continue
